@@ -634,6 +634,21 @@ impl<T: Transport, E: UtpEnvironment> Dispatcher<T, E> {
     }
 
     async fn on_syn(&mut self, remote: SocketAddr, msg: UtpMessage) -> crate::Result<()> {
+        // A duplicated or retransmitted SYN of a request that is already accepted or queued must
+        // not take another place in the queue: it would be handed to accept() once the first
+        // connection is gone.
+        let conn_id = msg.header.connection_id;
+        if self.streams.contains_key(&(remote, conn_id + 1))
+            || self
+                .accept_queue
+                .syns
+                .iter()
+                .any(|s| s.remote == remote && s.header.connection_id == conn_id)
+        {
+            trace!(?remote, ?conn_id, "duplicate SYN, ignoring");
+            return Ok(());
+        }
+
         let mut syn = Syn {
             remote,
             header: msg.header,
